@@ -932,8 +932,9 @@ func makeDataConditionFilter(dataSources []func(s *stream) ([][2]int, [2][]byte,
 		}
 		if evaluatedDataSources == 0 {
 			for _, c := range conditions {
-				if !c.Inverted {
-					// at least one condition is not inverted, it is not a match...
+				if !c.Inverted || len(c.Elements) != 1 {
+					// at least one condition is not inverted or is a sequence
+					// that has to find something first, it is not a match...
 					return false, nil
 				}
 			}
